@@ -5,6 +5,5 @@ CONSTANTS
   Parts = 1
   Known = {}
   Tags <- TagsFromFile
-INVARIANT EmptyPartsRoundTrip
-INVARIANT WhatIfsBreak
+INVARIANT EmptyParts
 CHECK_DEADLOCK FALSE
